@@ -181,7 +181,18 @@ impl Check for C16 {
                 22 => Op::HostWrite { addr: addr_biased(r), data: r.u16(), privileged: r.bool(), track: r.bool() },
                 23 => Op::HostRead { addr: addr_biased(r), privileged: r.bool(), effects: r.bool(), track: r.bool() },
                 24 => Op::TimerEnable(r.below(4) as usize, r.bool()),
-                25 => Op::CallSub(addr_biased(r)),
+                25 => {
+                    let a = addr_biased(r);
+                    if r.bool() {
+                        // a registered calling-convention signature for that very callee, stack near the top
+                        ops.push(Op::SubDef(a, SigS::Cc(1 + r.below(4) as u8)));
+                        if r.bool() {
+                            ops.push(Op::SetReg(6, 0xFFFBu16.wrapping_add(r.below(6) as u16)));
+                        }
+                    }
+                    Op::CallSub(a)
+                }
+                26 if r.chance(1, 2) => Op::RemoveDev(r.below(4) as usize),
                 _ => Op::QueryAll,
             };
             ops.push(op);
@@ -323,6 +334,7 @@ pub fn op_name(op: &Op) -> &'static str {
         Op::CallSub(_) => "call_subroutine",
         Op::SubDef(..) => "set_subroutine_def",
         Op::Host(_) => "host",
+        Op::RemoveDev(_) => "remove_device",
         _ => "cfg",
     }
 }
